@@ -2,12 +2,25 @@
 and monitor: harness/exec_props.py (monitor family 20 of Exec/ExecTrace.v)."""
 from harness import exec_props as X
 
-BIAS = {}
-TINY = None
+# random histories: every fifth poll's query fails or answers NOJOBS; profiles that leave
+# entries out of the answer or report None for them ("faulty": 25% absent, 12% None)
+BIAS = {"qerr_p": 0.07, "qnojobs_p": 0.16, "profiles": ["faulty", "faulty", "faulty", "mixed", "timeout", "hw"],
+        "cancel_p": 0.05, "max_polls": 12, "fair_after": [None, None, 4, 8]}
+# exhaustive tiny scope: at EVERY poll the query code is OK / NOJOBS / ERROR, a cancel request may
+# arrive, and every queried job is absent / None / PENDING / RUNNING / FINISHED / FAILED / TIMEDOUT
+TINY = {"depth_quick": 3, "depth_thorough": 3, "graphs_quick": 3,
+        "cfgs": [{"throttle": 0, "attempts": 1, "dry": False}, {"throttle": 1, "attempts": 2, "dry": False}],
+        "enum": {"q": True, "cancel": True, "subs": False,
+                 "kinds": ["absent", None, "PENDING", "RUNNING", "FINISHED", "FAILED", "TIMEDOUT"]},
+        "limit_quick": 12000, "limit_thorough": 200000}
+# the thorough tier covers all six tiny graphs; to stay inside its budget it keeps the
+# cancel request out of the enumeration (cancel + fault combinations are in the quick scope
+# and in the random stream)
+TINY_THOROUGH = dict(TINY, enum=dict(TINY["enum"], cancel=False))
 
 
 def run(ck):
-    return X.run_exec(ck, 20, BIAS, tiny=TINY)
+    return X.run_exec(ck, 20, BIAS, tiny=TINY if ck.tier == "quick" else TINY_THOROUGH)
 
 
 def replay(ck, path):
